@@ -112,6 +112,26 @@ CLAIMS.update({
           "Caller environments x module scripts x quoted values; argv, pass-through and module-set projections compared.",
           "No Lmod in the sandbox; unset outcome left open.", "6/C39"),
 })
+CLAIMS.update({
+ "C31": C("model_checking", "Rules.tla (Executable transcribed with quantifiers) enumerated by TLC per definition with a verdict table per assignment; replay on _check_rules and executed runs (direct, workflow node, lazy inputs)",
+          "Every definition of the bounded families (<=4 fields exhaustively, 5 on a seed-chosen shard; requires with/without allowed values; xor groups with/without None) x every value assignment; python.define and shell.define classes must agree; violations reported with no task body run and no job directory.",
+          "Falsy-but-set values, self-requirements and allowed values on non-str fields are outside the menu.", "6/C31"),
+ "C32": C("model_checking", "DefRoundTrip.tla (FromDict o ToDict preserves the projection, checked by TLC) + real unstructure->structure compared with the TLC projection, verdicts and command lines",
+          "The C31 rule space and field-template definitions (help, allowed values, argstr, sep, default, positions, rules): the re-created class must have the spec's projection and give the same rule verdict / cmdline on every assignment and the same outputs on an executed sample.",
+          "TLA+ serves mainly as relational/projection oracle here; JSON leg is an observation; known finding for `requires` matched on the exact as-built error.", "6/C32"),
+ "C33": C("model_checking", "Staging.tla enumerated by TLC (one state per nested output value); replayed on real one-node workflows",
+          "Shape, content, destinations inside the workflow directory, distinct sources to disjoint destinations, sources intact.",
+          "Values to depth 2; quick is a seeded sample.", "6/C33"),
+ "C34": C("model_checking", "Staging.tla + copy-mode table enumerated by TLC; replayed through Job.inputs of real Jobs with inode / write-through probes",
+          "copy => independent (write probes both ways), link/hardlink/symlink => shows the original, shape and non-file values kept, same object staged once.",
+          "Cross-field same-name staging (FileExistsError) is an observation: the quantifier is per nested value.", "6/C34"),
+ "C37": C("model_checking", "DiGraphSpec.tla state machine: TLC design check (all valid orders) + TLC behaviours (BFS paths, -simulate 12 steps / 6 nodes) replayed step by step on a real DiGraph + TLC validation of recorded sorted lists",
+          "SortedValid, AcyclicInv on <=4 nodes exhaustively; every behaviour replayed in four call variants comparing nodes, edges, wip, predecessors, successors, sorted_nodes after each step.",
+          "add_edges while a removed node still has connections is left open by the statement.", "6/C37"),
+ "C38": C("model_checking", "Mounts.tla (longest component-wise prefix) enumerated by TLC (tables x query paths); replayed through parse_mount_table / patch_table / get_mount / on_cifs / on_same_mount on Linux and macOS renderings",
+          "Every table of <=3 entries over <=2-3 component mount points x 40+ query paths, two renderings, shuffled lines.",
+          "Non-CIFS mounts are dropped from the table by design.", "6/C38"),
+})
 NOT_YET = "check still being built in this session (the property is intended to be decided by the TLA+ suite, see DESIGN.md section 6)"
 
 def main():
